@@ -34,4 +34,18 @@ BUILTIN_ORIGIN_TO_TYPEVARS: Mapping[type, VarTuple[TypeVar]] = {
     queue.LifoQueue: (_T1, ),
     queue.SimpleQueue: (_T1, ),
     concurrent.futures.Future: (_T1, ),
+    collections.abc.Iterable: (_T1_co, ),
+    collections.abc.Iterator: (_T1_co, ),
+    collections.abc.Reversible: (_T1_co, ),
+    collections.abc.Container: (_T1_co, ),
+    collections.abc.Collection: (_T1_co, ),
+    collections.abc.Sequence: (_T1_co, ),
+    collections.abc.MutableSequence: (_T1, ),
+    collections.abc.Set: (_T1_co, ),
+    collections.abc.MutableSet: (_T1, ),
+    collections.abc.KeysView: (_T1_co, ),
+    collections.abc.ValuesView: (_T1_co, ),
+    collections.abc.ItemsView: (_T1_co, _T2),
+    collections.abc.Mapping: (_T1, _T2),
+    collections.abc.MutableMapping: (_T1, _T2),
 }
